@@ -1,10 +1,182 @@
+import PdshVerif.Dsh.Timed
 import Driver.Util
 
-/-! engine stub: filled in by the owner of this engine (see FRAMEWORK.md) -/
+/-! engine `timed`: trace acceptor for the C07 runs of the `sched` harness (virtual clock, scripted
+    hosts, watchdog).  Times are seconds since the start of the run.
+
+    init <if|while> <f> <ct> <ut> <sopt> <selfcheck>   start a new trace                         -> ok
+    host <ok|refuse|hang> <d> <out> <err>     one target's script, in target order; a stream is `-` or
+                                              a comma list of <t|->:<dN|e|x>  (data N bytes, eof, error) -> ok
+    go                                        all hosts given                                    -> ok
+    st <tc> <R> <P> <X> <now>                 harness state before a step                        -> ok | reject ..
+    ev D .. | ev W<i> <fan op> | ev W<i> wake | ev G scan <hit targets|-> | ev tick              -> ok | reject ..
+    obs <i> <outgot> <errgot> <outclosed> <errclosed> <res|?>   what the harness saw of target i -> ok | reject ..
+    end <ok|deadlock|other>
+    The transition function is `PdshVerif.Dsh.Timed.step`, the one the theorems are about. -/
 namespace Driver.TimedDrv
+open PdshVerif.Dsh PdshVerif.Dsh.Timed
+
+structure Acc where
+  st : Option St := none
+  dead : Bool := false
+  v : Fan.Variant := .whileWait
+  f : Nat := 1
+  cfg : Cfg := { ct := 0, ut := 0, sopt := false, selfCheck := false }
+  scripts : List Script := []
+
+def names (t : String) : List String := if t = "-" then [] else t.splitOn ","
+
+def parseItem (t : String) : Option Item :=
+  match t.splitOn ":" with
+  | [a, k] =>
+    let tm : Option (Option Nat) := if a = "-" then some none else a.toNat?.map some
+    let kd : Option Kind :=
+      if k = "e" then some .eof else if k = "x" then some .err
+      else if k.startsWith "d" then (k.drop 1).toNat?.map .data else none
+    match tm, kd with
+    | some tm, some kd => some { t := tm, kind := kd }
+    | _, _ => none
+  | _ => none
+
+def parseItems (t : String) : Option (List Item) := (names t).mapM parseItem
+
+def parseFanLabel : List String → Option Fan.Label
+  | ["D", "lock"] => some (.d .lock)
+  | ["D", "wait"] => some (.d .wait)
+  | ["D", "wake", "0"] => some (.d (.wake false))
+  | ["D", "wake", "1"] => some (.d (.wake true))
+  | ["D", "relock"] => some (.d .relock)
+  | ["D", "create", j] => j.toNat?.map fun j => .d (.create j)
+  | ["D", "unlock"] => some (.d .unlock)
+  | ["D", "return"] => some (.d .ret)
+  | [t, a] =>
+    if t.startsWith "W" then
+      match (t.drop 1).toNat? with
+      | none => none
+      | some i =>
+        match a with
+        | "connectBegin" => some (.w i .connectBegin)
+        | "connectEnd" => some (.w i .connectEnd)
+        | "destroyBegin" => some (.w i .destroyBegin)
+        | "destroyEnd" => some (.w i .destroyEnd)
+        | "lock" => some (.w i .lock)
+        | "signal" => some (.w i .signal)
+        | "unlock" => some (.w i .unlock)
+        | _ => none
+    else none
+  | _ => none
+
+def showPhase : Phase → String
+  | .new => "new" | .rcmd => "rcmd" | .connecting => "connecting" | .reading => "reading" | .finished => "finished"
+def showRes : Res → String
+  | .none => "none" | .done => "done" | .connFailed => "connFailed" | .connTimedOut => "connTimedOut"
+  | .cmdTimedOut => "cmdTimedOut"
+def showHost (h : Host) : String :=
+  s!"{showPhase h.ph}/{showRes h.res}/s{h.start}/c{h.conn}/i{h.intr}/o{h.out.got}{if h.out.closed then "c" else ""}/e{h.err.got}{if h.err.closed then "c" else ""}"
+def showSt (s : St) : String :=
+  s!"now={s.now} wake={s.wake} tc={s.fan.tc} i={s.fan.i} hosts={" ".intercalate (s.hs.map showHost)}"
+
+def enabledNames (s : St) : List String :=
+  (if dEnabled s then ["D"] else []) ++ (if gEnabled s then ["G"] else []) ++
+  ((List.range s.hs.length).filter (wEnabled s)).map fun i => s!"W{i}"
+
+def checkSt (s : St) (tc r p x now : String) : Option String :=
+  let en := enabledNames s
+  let rs := (names r).filter fun n => n = "D" || n = "G" || n.startsWith "W"
+  let xs := names x
+  let ps := names p
+  if tc.toNat? ≠ some s.fan.tc then some s!"threadcount impl={tc} model={s.fan.tc}"
+  else if now.toNat? ≠ some s.now then some s!"clock impl={now} model={s.now}"
+  else
+    match rs.find? (fun n => !en.contains n) with
+    | some n => some s!"runnable in the implementation but not enabled in the model: {n} ({showSt s})"
+    | none =>
+      match en.find? (fun n => !rs.contains n && !xs.contains n) with
+      | some n => some s!"enabled in the model but not runnable in the implementation: {n} ({showSt s})"
+      | none =>
+        if spuriousEnabled s != ps.contains "D" then
+          some s!"spurious wake-up of D: model={spuriousEnabled s} impl={ps.contains "D"}"
+        else none
+
+def hits (s : St) : List Nat := (List.range s.hs.length).filter fun i => killed s.cfg s.now (s.host i)
+
+def parseEv (s : St) : List String → Except String Label
+  | ["tick"] => .ok .tick
+  | ["G", "scan", hs] =>
+    let want := (names hs).filterMap fun n => n.toNat?
+    if want = hits s then .ok .scan else .error s!"watchdog hits impl={hs} model={hits s}"
+  | [t, "wake"] =>
+    if t.startsWith "W" then
+      match (t.drop 1).toNat? with
+      | some i => .ok (.wake i)
+      | none => .error "bad thread"
+    else .error "bad thread"
+  | ws =>
+    match parseFanLabel ws with
+    | some l => .ok (.fan l)
+    | none => .error ("unknown event " ++ " ".intercalate ws)
+
+def stepLine (a : Acc) (line : String) : Acc × String :=
+  match Driver.words line with
+  | ["init", v, f, ct, ut, sopt, sc] =>
+    match f.toNat?, ct.toNat?, ut.toNat? with
+    | some f, some ct, some ut =>
+      ({ st := none, dead := false, v := if v = "if" then .ifWait else .whileWait, f := f,
+         cfg := { ct := ct, ut := ut, sopt := sopt = "1", selfCheck := sc = "1" }, scripts := [] }, "ok")
+    | _, _, _ => (a, "bad-line")
+  | ["host", k, d, o, e] =>
+    match d.toNat?, parseItems o, parseItems e with
+    | some d, some o, some e =>
+      let c : Conn := if k = "ok" then .ok d else if k = "refuse" then .refuse d else .hang
+      ({ a with scripts := a.scripts ++ [{ conn := c, out := o, err := e }] }, "ok")
+    | _, _, _ => (a, "bad-line")
+  | ["go"] => ({ a with st := some (init a.v a.f a.cfg a.scripts) }, "ok")
+  | "st" :: rest =>
+    if a.dead then (a, "skip") else
+    match a.st, rest with
+    | some s, [tc, r, p, x, now] =>
+      match checkSt s tc r p x now with
+      | none => (a, "ok")
+      | some why => ({ a with dead := true }, "reject " ++ why)
+    | _, _ => (a, "bad-line")
+  | "ev" :: rest =>
+    if a.dead then (a, "skip") else
+    match a.st with
+    | some s =>
+      match parseEv s rest with
+      | .error why => ({ a with dead := true }, "reject " ++ why)
+      | .ok l =>
+        match step s l with
+        | some s' => ({ a with st := some s' }, "ok")
+        | none => ({ a with dead := true }, s!"reject not enabled in the model: {" ".intercalate rest} ({showSt s})")
+    | none => (a, "bad-line")
+  | ["obs", i, og, eg, oc, ec, res] =>
+    if a.dead then (a, "skip") else
+    match a.st, i.toNat? with
+    | some s, some i =>
+      let h := s.host i
+      let bad :=
+        og.toNat? ≠ some h.out.got || (s.cfg.sopt && eg.toNat? ≠ some h.err.got) ||
+        (oc = "1") != h.out.closed || (s.cfg.sopt && (ec = "1") != h.err.closed) ||
+        (res ≠ "?" && res ≠ showRes h.res)
+      if bad then ({ a with dead := true }, s!"reject target {i}: impl out={og}/{oc} err={eg}/{ec} res={res}, model {showHost h}")
+      else (a, "ok")
+    | _, _ => (a, "bad-line")
+  | ["end", status] =>
+    if a.dead then (a, "skip") else
+    match a.st with
+    | some s =>
+      if status = "ok" then
+        if s.fan.dpc = .returned then (a, "ok") else (a, s!"reject run ended but the model is not final ({showSt s})")
+      else if status = "deadlock" then
+        if enabledNames s = [] then (a, "ok") else (a, s!"reject implementation stuck, model has enabled {enabledNames s}")
+      else (a, "ok")
+    | none => (a, "bad-line")
+  | _ => (a, "bad-line")
 
 def main (_args : List String) : IO UInt32 := do
-  IO.eprintln "engine not implemented"
-  return 2
+  let stdin ← IO.getStdin
+  Driver.forLines stdin ({} : Acc) stepLine
+  return 0
 
 end Driver.TimedDrv
